@@ -48,6 +48,8 @@ Holds(cl, o) ==
       LET r == o.out.runs[u] IN
       CASE cl = "Rejects"  -> Invalid(c) <=> (r.raised = "ValueError")
         [] cl = "Windows"  -> (~Invalid(c) /\ r.raised = "") => r.w = ReqWindows(c) /\ r.w2 = ReqWindows(c)   \* w2: same bounds, other recording, called afterwards
+                                                           /\ r.w3 = ReqWindows(c)   \* w3: the clip derived by model_copy(update end_time) from a used, longer clip
+                                                           /\ r.w4 = ReqWindows(c)   \* w4: the same call with positional arguments (clip, duration, hop, include_incomplete)
         [] cl = "SameRecording"    -> r.raised = "" => r.samerec
         [] cl = "IdsDistinct"      -> r.raised = "" => r.ids_distinct
         [] cl = "IdsDeterministic" -> r.raised = "" => r.ids_repeat
